@@ -139,6 +139,9 @@ func c34specs() []gw.Spec {
 	alpha := []string{
 		gw.EvC("CONNECT(c1,4)", gw.Connect("c1", c34K, false, true)),
 		gw.EvC("CONNECT(c1,4,will)", gw.Connect("c1", c34K, true, true)),
+		// keep-alive 0 would switch the broker's timeout off: such a CONNECT must not reach the broker in any flow
+		gw.EvC("CONNECT(c1,0)", gw.Connect("c1", 0, false, true)),
+		gw.EvC("CONNECT(c1,0,will)", gw.Connect("c1", 0, true, true)),
 		gw.EvC("AUTH(PLAIN u/p)", gw.AuthPlain("u", "p")),
 		gw.EvC("WILLTOPIC(w)", gw.WillTopic("w", 1, false)),
 		gw.EvC("WILLMSG(m)", gw.WillMsg("m")),
@@ -170,7 +173,7 @@ func c34specs() []gw.Spec {
 			}
 			return nil
 		}
-		out = append(out, gw.Spec{Name: fmt.Sprintf("auth=%t", auth), Cfg: cfg, NoSettle: true, NewMonitor: func() gw.Monitor {
+		out = append(out, gw.Spec{Name: fmt.Sprintf("auth=%t", auth), Cfg: cfg, NoSettle: true, Livelock: true, NewMonitor: func() gw.Monitor {
 			return &c34mon{view: "disconnected", maxDepth: depth, alphabet: alpha}
 		}})
 	}
@@ -185,7 +188,7 @@ func TestC34(t *testing.T) {
 	}
 	rep := explore.NewReport("C34", "model_checking")
 	gw.BFSCheck(rep, specs, gw.BFSOpts{Test: "TestC34"}, 240, 1500)
-	rep.Coverage["rule"] = "BFS (depth 4, thorough 6; auth off/on) over CONNECT{will,no will}/AUTH/WILLTOPIC/WILLMSG/REGISTER/PUBLISH/PINGREQ/DISCONNECT(2|10)/2 s pauses against a broker model that answers at once, enforces the MQTT keep-alive (4 s, closes after 6 s of silence) and drops connections without CONNECT after 5 s; in every reached state the client vanishes and 60 s of virtual time pass: the session must have ended by the connect timeout (before connecting), 1.5 x keep-alive (active) or announced sleep end + 1.5 x keep-alive + one keep-alive (asleep), plus 200 ms of polls"
+	rep.Coverage["rule"] = "BFS (depth 4, thorough 6; auth off/on) over CONNECT{will,no will} x keep-alive{4 s, 0}/AUTH/WILLTOPIC/WILLMSG/REGISTER/PUBLISH/PINGREQ/DISCONNECT(2|10)/2 s pauses against a broker model that answers at once, enforces the MQTT keep-alive (4 s, closes after 6 s of silence) and drops connections without CONNECT after 5 s; in every reached state the client vanishes and 60 s of virtual time pass: the session must have ended by the connect timeout (before connecting), 1.5 x keep-alive (active) or announced sleep end + 1.5 x keep-alive + one keep-alive (asleep), plus 200 ms of polls"
 	rep.Assumptions = []string{"default schedule; virtual time", "the broker assumption is part of the property"}
 	rep.Finish()
 }
